@@ -86,8 +86,22 @@ def cases(draw):
                                                           width=32)))]
     mm = None
     if draw(st.integers(0, 1)) == 0:
-        kind = draw(st.sampled_from(["exact", "exact", "free", "nomin"]))
-        if kind == "exact":
+        kind = draw(st.sampled_from(["exact", "exact", "free", "nomin",
+                                     "unit_shift"]))
+        if kind == "unit_shift":
+            # a window exactly as wide as the output range that does not start
+            # at the output minimum: a pure shift (slope 1, intercept != 0),
+            # preferably with the stored type equal to the output type
+            if layout == "rgb":
+                out = draw(st.sampled_from(["uint8", "uint8", out]))
+                enc = "raw"
+            elif out in STORED and draw(st.booleans()):
+                stored = out
+            span = {"uint8": 255, "uint16": 65535, "uint32": 2 ** 32 - 1,
+                    "uint64": 2 ** 52, "float32": 1}[out]
+            a = draw(st.sampled_from([16.0, -16.0, 1.0, 100.0, -3.0]))
+            mm = [a, a + span]
+        elif kind == "exact":
             span = {"uint8": 255, "uint16": 65535, "uint32": 2 ** 32 - 1,
                     "uint64": 2 ** 52, "float32": 1}[out]
             k = draw(st.sampled_from([1, 2, 0.5, 4]))
@@ -120,7 +134,7 @@ def cases(draw):
         "content": draw(st.sampled_from(["position", "position", "limits"])),
         "seed": draw(st.integers(0, 2 ** 31)),
         "big_endian": draw(st.integers(0, 3)) == 0,
-        "via": draw(st.sampled_from(["api", "cli"])),
+        "via": draw(st.sampled_from(["api", "cli", "api", "cli", "image"])),
     }
 
 
@@ -212,6 +226,13 @@ def expected_sets(case, raw):
         if np.dtype(case["stored"]).kind == "f" if case["stored"] != "rgb" \
                 else False:
             exact_class = exact_class and True
+    # an image object holding a float32 array (never a file) is rescaled in
+    # the array's own precision: the statement is about volume files, so only
+    # float32 accuracy is demanded there
+    f32_arith = (case.get("via") == "image" and case["layout"] != "rgb" and
+                 case["stored"] == "float32" and mm is not None)
+    if f32_arith:
+        exact_class = False
     flat = vals.reshape(-1).tolist()
     res = np.empty(len(flat), dtype=object)
     for i, r in enumerate(flat):
@@ -222,7 +243,9 @@ def expected_sets(case, raw):
             mag = (mag + abs(imin)) * abs(ps) + abs(omin)
             v = omin + (v - imin) * ps
         mag = mag + abs(v)
-        if exact_class and mag < 2 ** 53:
+        if f32_arith:
+            tol = mag / 2 ** 21
+        elif exact_class and mag < 2 ** 53:
             tol = Fraction(0)
         elif exact_class:
             tol = mag / 2 ** 50      # beyond 2^53 float64 must round
@@ -260,6 +283,10 @@ def check_case(ctx, case):
             # content): no verdict
             ctx.count("excluded_jpeg_rescaled")
             return None
+        in_memory = case.get("via") == "image" and case["layout"] != "rgb"
+        if in_memory:
+            # an image object that was never a file: no header scaling
+            case = dict(case, scaling=None)
         raw = make_raw(case)
         path = os.path.join(d, "in.nii" + (".gz" if case["gz"] else ""))
         slope, inter = case["scaling"] or (None, None)
@@ -290,7 +317,19 @@ def check_case(ctx, case):
         mm = case["minmax"]
         try:
             with ds.captured_atexit(), np.errstate(all="ignore"):
-                if case.get("via") == "cli" and not (
+                if in_memory:
+                    import nibabel
+                    from neuroglancer_scripts import accessor, precomputed_io
+                    img = nibabel.Nifti1Image(
+                        raw, np.diag([1.0, 1.0, 1.0, 1.0]), dtype=raw.dtype)
+                    writer = precomputed_io.get_IO_for_existing_dataset(
+                        accessor.get_accessor_for_url(dest, options))
+                    rc = volume_reader.nibabel_image_to_precomputed(
+                        img, writer, case["ignore_scaling"],
+                        None if mm is None else mm[0],
+                        None if mm is None else mm[1],
+                        not case["mmap"], options)
+                elif case.get("via") == "cli" and not (
                         mm is not None and mm[0] is None):
                     # the same conversion asked for on the command line
                     from neuroglancer_scripts.scripts import \
@@ -387,6 +426,25 @@ def describe(case):
                 case["out"], case["chunk"], case["encoding"], case["acc"]))
 
 
+def window_class(case):
+    mm = case["minmax"]
+    if mm is None:
+        return "none"
+    if mm[0] is None:
+        return "max_only"
+    span = {"uint8": 255, "uint16": 65535, "uint32": 2 ** 32 - 1,
+            "uint64": 2 ** 52, "float32": 1}[case["out"]]
+    if mm[1] - mm[0] != span:
+        return "rescaling"
+    if mm[0] == 0:
+        return "identity"
+    in_array = case["layout"] == "rgb" or case.get("via") == "image"
+    stored = "uint8" if case["layout"] == "rgb" else case["stored"]
+    if in_array and stored == case["out"]:
+        return "pure_shift_of_array_of_output_type"
+    return "pure_shift"
+
+
 def run(ctx, n):
     def check(ctx, case):
         nt = check_case(ctx, case)
@@ -400,9 +458,70 @@ def run(ctx, n):
             "minmax" if case["minmax"] else "nominmax",
             "ignore" if case["ignore_scaling"] else "apply",
             "via." + case.get("via", "api"),
+            "window." + window_class(case),
             "big_endian_file" if case.get("big_endian") and
             case["layout"] != "rgb" else "little_endian_file"])
     ctx.run_hypothesis(cases(), check, n)
+
+
+def grid_cases():
+    """The complete product of the discrete options at one tiny shape: every
+    conjunction of (channel layout, stored type, output type, window class,
+    header scaling / --ignore-scaling, entry point) occurs, which random
+    draws of 700 cases do not guarantee for four-way conjunctions."""
+    out_span = {"uint8": 255, "uint16": 65535, "uint32": 2 ** 32 - 1,
+                "uint64": 2 ** 52, "float32": 1}
+    cases_ = []
+    k = 0
+    for out in NG:
+        span = out_span[out]
+        windows = [None, [0.0, float(span)], [16.0, 16.0 + span],
+                   [-16.0, float(span) - 16.0], [0.0, span / 2.0],
+                   [None, 200.0], [-float(span), 0.0]]
+        for layout in ("3d", "4d", "rgb"):
+            if layout == "rgb":
+                storeds = ["rgb"]
+            else:
+                storeds = list(dict.fromkeys(
+                    [out if out in STORED else "float32", "int16",
+                     "float32", "uint8"]))
+            for stored in storeds:
+                for mm in windows:
+                    for scal, ign in ((None, False), ([2.0, -3.0], False),
+                                      ([2.0, -3.0], True), (None, True)):
+                        if layout == "rgb" and scal is not None:
+                            continue
+                        for via in ("api", "cli", "image"):
+                            if layout == "rgb" and via == "image":
+                                continue
+                            k += 1
+                            acc = ("deep_gz", "flat", "sharded", "deep",
+                                   "flat_gz")[k % 5]
+                            cases_.append({
+                                "shape": [3, 2, 2], "layout": layout,
+                                "channels": {"3d": 1, "4d": 2,
+                                             "rgb": 3}[layout],
+                                "stored": stored, "gz": k % 3 == 0,
+                                "scaling": scal, "ignore_scaling": ign,
+                                "minmax": mm, "mmap": k % 2 == 1, "out": out,
+                                "chunk": [2, 2, 2], "encoding": "raw",
+                                "block": [8, 8, 8], "acc": acc,
+                                "bits": [1, 1, 1], "shard_enc": "raw",
+                                "shard_enc_data": "gzip",
+                                "content": "position", "seed": k,
+                                "big_endian": k % 7 == 0, "via": via})
+    return cases_
+
+
+def run_grid(ctx, n):
+    def check(ctx, case):
+        nt = check_case(ctx, case)
+        if nt is None:
+            return
+        ctx.record(case, nt, [case["layout"], "out." + case["out"],
+                              "window." + window_class(case),
+                              "via." + case["via"]])
+    ctx.run_grid(grid_cases(), check)
 
 
 def run_many(ctx, n):
@@ -443,4 +562,6 @@ def replay(ctx, case):
 
 SUBS = [Sub("convert", run, replay, quick=700, thorough=100000,
             min_per_shard=10),
+        Sub("option_grid", run_grid, replay, quick=1, thorough=1, shards=14,
+            sweep=True),
         Sub("many_shards", run_many, replay, quick=1, thorough=3, shards=1)]
